@@ -40,6 +40,7 @@ type Config struct {
 	Flush       bool
 	Debug       int
 	TracePoints bool // record schedule points in the event log
+	ProcOps     bool // the implementation also implements SrvReqProcessOps
 }
 
 type Sess struct {
@@ -65,6 +66,14 @@ func NewSess(cfg Config) *Sess {
 	s.Srv.Id = "verif"
 	var ops interface{}
 	switch {
+	case cfg.ProcOps && cfg.Auth && cfg.Flush:
+		ops = script.WithProcAuthFlush{WithAuthFlush: script.WithAuthFlush{Ops: s.Ops}}
+	case cfg.ProcOps && cfg.Auth:
+		ops = script.WithProcAuth{WithAuth: script.WithAuth{Ops: s.Ops}}
+	case cfg.ProcOps && cfg.Flush:
+		ops = script.WithProcFlush{WithFlush: script.WithFlush{Ops: s.Ops}}
+	case cfg.ProcOps:
+		ops = script.WithProc{Ops: s.Ops}
 	case cfg.Auth && cfg.Flush:
 		ops = script.WithAuthFlush{Ops: s.Ops}
 	case cfg.Auth:
